@@ -6,13 +6,22 @@ import json
 import random
 import numpy as np
 from scipy.special import jv
-from mininec.mininec import (Mininec, Wire, Excitation, ideal_ground, Impedance_Load, Series_RLC_Load,
+from mininec.mininec import (Mininec, Wire, Excitation, ideal_ground, Medium, Impedance_Load, Series_RLC_Load,
                              Trap_Load, Laplace_Load, Skin_Effect_Load, Insulation_Load, mu_0)
 
 
 def model(spec, loads=()):
     wires = [Wire(*w) for w in spec['wires']]
-    m = Mininec(spec['f'], wires, media=[ideal_ground] if spec['ground'] else None)
+    media = None
+    if spec['ground']:
+        g = spec.get('ground_kind', 'ideal')
+        if g == 'ideal':
+            media = [ideal_ground]
+        elif g == 'one':
+            media = [Medium(13.0, 0.005)]
+        else:
+            media = [Medium(13.0, 0.005, coord=9.0, boundary='circular', nradials=12, radius=0.001), Medium(5.0, 0.001, boundary='circular')]
+    m = Mininec(spec['f'], wires, media=media)
     m.register_source(Excitation(1 + 0j), spec['feed'])
     for ld, pulse in loads:
         m.register_load(ld, pulse)
@@ -128,6 +137,27 @@ def check(spec, rng):
     zf = feedz(m5)
     if abs(zs - zf) > 1e-9 * abs(zf):
         viol.append({'id': 'skin-effect-load-depends-on-earlier-frequency', 'expected': str(zf), 'observed': str(zs)})
+    # a distributed load on only one of two joined wires: the junction pulse carries the loaded half
+    if len(spec['wires']) > 1:
+        for which in (0, 1):
+            m6 = model(spec)
+            w = list(m6.geo)[which]
+            m6.register_load(Skin_Effect_Load(w, sig), None, w.tag)
+            m6.fix_distributed_loads()
+            for p in m6.pulses:
+                exp = 0j
+                for i, g in enumerate(p.geo):
+                    if g is not w or p.ground[i]:
+                        continue
+                    k = np.sqrt(-1j * omg * mu_0 * sig)
+                    kr = k * g.r_orig
+                    bb = 1j if abs(kr) >= 110 else jv(0, kr) / jv(1, kr)
+                    exp += p.segs[i].seg_len / 2 * k / (2 * np.pi * g.r_orig * sig) * bb
+                got = sum(l.impedance(f, p) for l in m6.loads if p in l.pulses)
+                if abs(got - exp) > 1e-9 * max(abs(exp), 1e-12):
+                    viol.append({'id': 'one-sided-distributed-load-wrong-on-a-pulse', 'loaded_wire': which + 1, 'pulse': p.idx + 1,
+                                 'junction': p.geo[0] is not p.geo[1], 'expected': str(exp), 'observed': str(got)})
+                    break
     for v in viol:
         v['input'] = spec
     return viol
@@ -149,7 +179,12 @@ def gen(rng):
         if rng.random() < 0.4:
             e = wires[0][4:7]
             wires.append((rng.randint(2, 5),) + tuple(e) + (e[0] + 2, 3.0, 1.0, 0.002))
-    spec = {'wires': wires, 'ground': ground, 'f': rng.choice([3.6, 7.1, 14.2, 21.3])}
+    spec = {'wires': wires, 'ground': ground, 'f': rng.choice([3.6, 7.1, 14.2, 21.3]),
+            'ground_kind': rng.choice(['ideal', 'ideal', 'one', 'two'])}
+    if not ground and len(wires) > 1 and rng.random() < 0.5:
+        # the second wire starts (end 1) on the first wire's end 2, or is described the other way round
+        w2 = wires[1]
+        wires[1] = (w2[0],) + tuple(w2[4:7]) + tuple(w2[1:4]) + (w2[7],)
     m = model(dict(spec, feed=0))
     n = len(m.pulses)
     grounded = [p.idx for p in m.pulses if p.ground.any()]
